@@ -36,6 +36,8 @@ def gen_cases(tier, seed):
     for k, child in enumerate(ss.spawn(n)):
         s = int(child.generate_state(1)[0])
         c = {"seed": s, "max_atoms": 110 if q else 300, "allow_invalid": True}
+        if k % 6 == 1:          # stratum: small multi-species region at scattered, high indices of a larger system
+            c.update(family=["minority_defective", "minority_compound"][(k // 6) % 2], max_atoms=150 if q else 300)
         if k % 5 == 0:          # the same case in both hash-seed groups: offline determinism comparison
             cases.append(dict(c, group=0, pair=k))
             cases.append(dict(c, group=1, pair=k))
